@@ -4,6 +4,7 @@
 From Coq Require Import ZArith List Bool Lia.
 From FT.model Require Import MeshIO.
 From FT.proofs Require Import MeshIOProofs.
+From FT.proofs Require IoGenEq.
 Import ListNotations.
 Open Scope Z_scope.
 
@@ -82,6 +83,695 @@ Theorem C20_one_polyline_per_ray :
   forall (off : Z) (lens : list Z), length (rays_segments off lens) = length lens.
 Proof. exact @MeshIOProofs.rays_segments_length. Qed.
 
+(* extracted from fteikpy/_io.py on every run (gen/IoGen.v): the k-th node coordinate along x is k * dx + x0 (every numeric instance) - not a float arange *)
+Theorem C20_node_coordinates_from_source_2d_x :
+  forall (T : Type) (N : Num.Num T) (nx ny : Z) (dx dy x0 y0 : T) (k : Z),
+       IoGen.mesh2d_dx_node nx ny dx dy x0 y0 k = Num.nadd (Num.nmul (Num.nofZ k) dx) x0.
+Proof. exact @IoGenEq.gen_mesh2d_dx_node_eq. Qed.
+
+(* 3D, z *)
+Theorem C20_node_coordinates_from_source_3d_z :
+  forall (T : Type) (N : Num.Num T) (nx ny nz : Z) (dx dy dz x0 y0 z0 : T) (k : Z),
+       IoGen.mesh3d_dz_node nx ny nz dx dy dz x0 y0 z0 k = Num.nadd (Num.nmul (Num.nofZ k) dz) z0.
+Proof. exact @IoGenEq.gen_mesh3d_dz_node_eq. Qed.
+
+(* one more node than cells along every axis *)
+Theorem C20_node_counts_from_source :
+  forall (T : Type) (nx ny nz : Z) (dx dy dz x0 y0 z0 : T),
+       IoGen.mesh2d_dx_len nx ny dx dy x0 y0 = nx + 1 /\
+       IoGen.mesh2d_dy_len nx ny dx dy x0 y0 = ny + 1 /\
+       IoGen.mesh3d_dx_len nx ny nz dx dy dz x0 y0 z0 = nx + 1 /\
+       IoGen.mesh3d_dy_len nx ny nz dx dy dz x0 y0 z0 = ny + 1 /\
+       IoGen.mesh3d_dz_len nx ny nz dx dy dz x0 y0 z0 = nz + 1.
+Proof. exact @IoGenEq.gen_mesh_node_counts. Qed.
+
+(* the point numbered pidx2 of the GENERATED point list is the node (ix, iz) with its coordinates *)
+Theorem C20_point_numbering_from_source_2d :
+  forall (T : Type) (N : Num.Num T) (nx ny : Z) (dx dy x0 y0 : T) (ix iz : Z),
+       0 <= ix <= nx ->
+       0 <= iz <= ny ->
+       nth_error (IoGen.mesh2d_points nx ny dx dy x0 y0) (Z.to_nat (pidx2 nx ix iz)) =
+       Some [Num.nadd (Num.nmul (Num.nofZ ix) dx) x0; Num.nadd (Num.nmul (Num.nofZ iz) dy) y0].
+Proof. exact @IoGenEq.gen_mesh2d_point_number. Qed.
+
+(* the cell numbered cidx2 of the generated cell list has the hand model's corner list *)
+Theorem C20_cell_numbering_from_source_2d :
+  forall (T : Type) (nx ny : Z) (dx dy x0 y0 : T) (ix iz : Z),
+       0 <= ix < nx ->
+       0 <= iz < ny ->
+       nth_error (IoGen.mesh2d_cells nx ny dx dy x0 y0) (Z.to_nat (cidx2 nx ix iz)) = Some (corners2 nx ix iz).
+Proof. exact @IoGenEq.gen_mesh2d_cell_number. Qed.
+
+(* 3D *)
+Theorem C20_point_numbering_from_source_3d :
+  forall (T : Type) (N : Num.Num T) (nx ny nz : Z) (dx dy dz x0 y0 z0 : T) (ix iy iz : Z),
+       0 <= ix <= nx ->
+       0 <= iy <= ny ->
+       0 <= iz <= nz ->
+       nth_error (IoGen.mesh3d_points nx ny nz dx dy dz x0 y0 z0) (Z.to_nat (pidx3 ny nz ix iy iz)) =
+       Some
+         [Num.nadd (Num.nmul (Num.nofZ ix) dx) x0; Num.nadd (Num.nmul (Num.nofZ iy) dy) y0;
+          Num.nadd (Num.nmul (Num.nofZ iz) dz) z0].
+Proof. exact @IoGenEq.gen_mesh3d_point_number. Qed.
+
+(* 3D *)
+Theorem C20_cell_numbering_from_source_3d :
+  forall (T : Type) (nx ny nz : Z) (dx dy dz x0 y0 z0 : T) (ix iy iz : Z),
+       0 <= ix < nx ->
+       0 <= iy < ny ->
+       0 <= iz < nz ->
+       nth_error (IoGen.mesh3d_cells nx ny nz dx dy dz x0 y0 z0) (Z.to_nat (cidx3 ny nz ix iy iz)) =
+       Some (corners3 ny nz ix iy iz).
+Proof. exact @IoGenEq.gen_mesh3d_cell_number. Qed.
+
+(* the whole generated quad list equals the hand model's cells2 (corner order included) *)
+Theorem C20_cells_from_source_2d :
+  forall (T : Type) (nx ny : Z) (dx dy x0 y0 : T), IoGen.mesh2d_cells nx ny dx dy x0 y0 = cells2 nx ny.
+Proof. exact @IoGenEq.gen_mesh2d_cells_eq. Qed.
+
+(* hexahedra *)
+Theorem C20_cells_from_source_3d :
+  forall (T : Type) (nx ny nz : Z) (dx dy dz x0 y0 z0 : T),
+       IoGen.mesh3d_cells nx ny nz dx dy dz x0 y0 z0 = cells3 nx ny nz.
+Proof. exact @IoGenEq.gen_mesh3d_cells_eq. Qed.
+
+(* point/cell data order: the extracted ravel of a 2D array is the hand model's ravel2 *)
+Theorem C20_data_order_from_source_2d :
+  forall nzn ncols iz ix : Z, IoGen.ravel_grid_2d [nzn; ncols] [iz; ix] = ravel2 ncols iz ix.
+Proof. exact @IoGenEq.gen_ravel_grid_2d_eq. Qed.
+
+(* 3D: transpose axes and ravel as in the hand model *)
+Theorem C20_data_order_from_source_3d :
+  forall nzn nxn nyn iz ix iy : Z, IoGen.ravel_grid_3d [nzn; nxn; nyn] [iz; ix; iy] = ravel3_t nyn nzn iz ix iy.
+Proof. exact @IoGenEq.gen_ravel_grid_3d_eq. Qed.
+
+(* ray export: for any list of ray lengths the extracted connectivity (offset = number of points so far, accumulated over the rays) equals the hand model's consecutive segments *)
+Theorem C20_ray_segments_from_source :
+  forall lens : list Z, IoGen.ray_to_meshio_cells lens = rays_segments 0 lens.
+Proof. exact @IoGenEq.gen_ray_to_meshio_cells_eq. Qed.
+
+(* after a ray of n vertices the offset has advanced by n *)
+Theorem C20_ray_offset_accumulates :
+  forall off n : Z, IoGen.ray_next_off off n = off + n.
+Proof. exact @IoGenEq.gen_ray_next_off_eq. Qed.
+
+(* the statements of the ray loop as extracted *)
+Theorem C20_ray_export_statement_context :
+  IoGen.ray_celltype =
+       String.String (Ascii.Ascii false false true true false true true false)
+         (String.String (Ascii.Ascii true false false true false true true false)
+            (String.String (Ascii.Ascii false true true true false true true false)
+               (String.String (Ascii.Ascii true false true false false true true false) String.EmptyString))) /\
+       IoGen.ray_points_update =
+       String.String (Ascii.Ascii false false false false true true true false)
+         (String.String (Ascii.Ascii true true true true false true true false)
+            (String.String (Ascii.Ascii true false false true false true true false)
+               (String.String (Ascii.Ascii false true true true false true true false)
+                  (String.String (Ascii.Ascii false false true false true true true false)
+                     (String.String (Ascii.Ascii true true false false true true true false)
+                        (String.String (Ascii.Ascii false false false false false true false false)
+                           (String.String (Ascii.Ascii true false true true true true false false)
+                              (String.String (Ascii.Ascii false false false false false true false false)
+                                 (String.String (Ascii.Ascii false true true true false true true false)
+                                    (String.String (Ascii.Ascii false false false false true true true false)
+                                       (String.String (Ascii.Ascii false true true true false true false false)
+                                          (String.String (Ascii.Ascii true false false false false true true false)
+                                             (String.String (Ascii.Ascii false true false false true true true false)
+                                                (String.String
+                                                   (Ascii.Ascii false true false false true true true false)
+                                                   (String.String
+                                                      (Ascii.Ascii true false false false false true true false)
+                                                      (String.String
+                                                         (Ascii.Ascii true false false true true true true false)
+                                                         (String.String
+                                                            (Ascii.Ascii false false false true false true false false)
+                                                            (String.String
+                                                               (Ascii.Ascii false true false false true true true false)
+                                                               (String.String
+                                                                  (Ascii.Ascii true false false false false true true
+                                                                     false)
+                                                                  (String.String
+                                                                     (Ascii.Ascii true false false true true true true
+                                                                        false)
+                                                                     (String.String
+                                                                        (Ascii.Ascii true false false true false true
+                                                                           false false)
+                                                                        (String.String
+                                                                           (Ascii.Ascii false false false false false
+                                                                              true false false)
+                                                                           (String.String
+                                                                              (Ascii.Ascii true false false true false
+                                                                                 true true false)
+                                                                              (String.String
+                                                                                 (Ascii.Ascii false true true false
+                                                                                    false true true false)
+                                                                                 (String.String
+                                                                                    (Ascii.Ascii false false false
+                                                                                       false false true false false)
+                                                                                    (String.String
+                                                                                       (Ascii.Ascii false false true
+                                                                                          true false true true false)
+                                                                                       (String.String
+                                                                                          (Ascii.Ascii true false true
+                                                                                          false false true true false)
+                                                                                          (String.String
+                                                                                          (Ascii.Ascii false true true
+                                                                                          true false true true false)
+                                                                                          (String.String
+                                                                                          (Ascii.Ascii false false
+                                                                                          false true false true false
+                                                                                          false)
+                                                                                          (String.String
+                                                                                          (Ascii.Ascii false false
+                                                                                          false false true true true
+                                                                                          false)
+                                                                                          (String.String
+                                                                                          (Ascii.Ascii true true true
+                                                                                          true false true true false)
+                                                                                          (String.String
+                                                                                          (Ascii.Ascii true false false
+                                                                                          true false true true false)
+                                                                                          (String.String
+                                                                                          (Ascii.Ascii false true true
+                                                                                          true false true true false)
+                                                                                          (String.String
+                                                                                          (Ascii.Ascii false false true
+                                                                                          false true true true false)
+                                                                                          (String.String
+                                                                                          (Ascii.Ascii true true false
+                                                                                          false true true true false)
+                                                                                          (String.String
+                                                                                          (Ascii.Ascii true false false
+                                                                                          true false true false false)
+                                                                                          (String.String
+                                                                                          (Ascii.Ascii false false
+                                                                                          false false false true false
+                                                                                          false)
+                                                                                          (String.String
+                                                                                          (Ascii.Ascii true false true
+                                                                                          true true true false false)
+                                                                                          (String.String
+                                                                                          (Ascii.Ascii true false true
+                                                                                          true true true false false)
+                                                                                          (String.String
+                                                                                          (Ascii.Ascii false false
+                                                                                          false false false true false
+                                                                                          false)
+                                                                                          (String.String
+                                                                                          (Ascii.Ascii false false
+                                                                                          false false true true false
+                                                                                          false)
+                                                                                          (String.String
+                                                                                          (Ascii.Ascii false false
+                                                                                          false false false true false
+                                                                                          false)
+                                                                                          (String.String
+                                                                                          (Ascii.Ascii true false true
+                                                                                          false false true true false)
+                                                                                          (String.String
+                                                                                          (Ascii.Ascii false false true
+                                                                                          true false true true false)
+                                                                                          (String.String
+                                                                                          (Ascii.Ascii true true false
+                                                                                          false true true true false)
+                                                                                          (String.String
+                                                                                          (Ascii.Ascii true false true
+                                                                                          false false true true false)
+                                                                                          (String.String
+                                                                                          (Ascii.Ascii false false
+                                                                                          false false false true false
+                                                                                          false)
+                                                                                          (String.String
+                                                                                          (Ascii.Ascii false true true
+                                                                                          true false true true false)
+                                                                                          (String.String
+                                                                                          (Ascii.Ascii false false
+                                                                                          false false true true true
+                                                                                          false)
+                                                                                          (String.String
+                                                                                          (Ascii.Ascii false true true
+                                                                                          true false true false false)
+                                                                                          (String.String
+                                                                                          (Ascii.Ascii false true true
+                                                                                          false true true true false)
+                                                                                          (String.String
+                                                                                          (Ascii.Ascii true true false
+                                                                                          false true true true false)
+                                                                                          (String.String
+                                                                                          (Ascii.Ascii false false true
+                                                                                          false true true true false)
+                                                                                          (String.String
+                                                                                          (Ascii.Ascii true false false
+                                                                                          false false true true false)
+                                                                                          (String.String
+                                                                                          (Ascii.Ascii true true false
+                                                                                          false false true true false)
+                                                                                          (String.String
+                                                                                          (Ascii.Ascii true true false
+                                                                                          true false true true false)
+                                                                                          (String.String
+                                                                                          (Ascii.Ascii false false
+                                                                                          false true false true false
+                                                                                          false)
+                                                                                          (String.String
+                                                                                          (Ascii.Ascii false false
+                                                                                          false true false true false
+                                                                                          false)
+                                                                                          (String.String
+                                                                                          (Ascii.Ascii false false
+                                                                                          false false true true true
+                                                                                          false)
+                                                                                          (String.String
+                                                                                          (Ascii.Ascii true true true
+                                                                                          true false true true false)
+                                                                                          (String.String
+                                                                                          (Ascii.Ascii true false false
+                                                                                          true false true true false)
+                                                                                          (String.String
+                                                                                          (Ascii.Ascii false true true
+                                                                                          true false true true false)
+                                                                                          (String.String
+                                                                                          (Ascii.Ascii false false true
+                                                                                          false true true true false)
+                                                                                          (String.String
+                                                                                          (Ascii.Ascii true true false
+                                                                                          false true true true false)
+                                                                                          (String.String
+                                                                                          (Ascii.Ascii false false true
+                                                                                          true false true false false)
+                                                                                          (String.String
+                                                                                          (Ascii.Ascii false false
+                                                                                          false false false true false
+                                                                                          false)
+                                                                                          (String.String
+                                                                                          (Ascii.Ascii false true false
+                                                                                          false true true true false)
+                                                                                          (String.String
+                                                                                          (Ascii.Ascii true false false
+                                                                                          false false true true false)
+                                                                                          (String.String
+                                                                                          (Ascii.Ascii true false false
+                                                                                          true true true true false)
+                                                                                          (String.String
+                                                                                          (Ascii.Ascii true false false
+                                                                                          true false true false false)
+                                                                                          (String.String
+                                                                                          (Ascii.Ascii true false false
+                                                                                          true false true false false)
+                                                                                          String.EmptyString))))))))))))))))))))))))))))))))))))))))))))))))))))))))))))))))))))))) /\
+       IoGen.ray_points_post =
+       [String.String (Ascii.Ascii false false false false true true true false)
+          (String.String (Ascii.Ascii true true true true false true true false)
+             (String.String (Ascii.Ascii true false false true false true true false)
+                (String.String (Ascii.Ascii false true true true false true true false)
+                   (String.String (Ascii.Ascii false false true false true true true false)
+                      (String.String (Ascii.Ascii true true false false true true true false)
+                         (String.String (Ascii.Ascii false false false false false true false false)
+                            (String.String (Ascii.Ascii true false true true true true false false)
+                               (String.String (Ascii.Ascii false false false false false true false false)
+                                  (String.String (Ascii.Ascii false true true true false true true false)
+                                     (String.String (Ascii.Ascii false false false false true true true false)
+                                        (String.String (Ascii.Ascii false true true true false true false false)
+                                           (String.String (Ascii.Ascii true true false false false true true false)
+                                              (String.String (Ascii.Ascii true true true true false true true false)
+                                                 (String.String
+                                                    (Ascii.Ascii false false true true false true true false)
+                                                    (String.String
+                                                       (Ascii.Ascii true false true false true true true false)
+                                                       (String.String
+                                                          (Ascii.Ascii true false true true false true true false)
+                                                          (String.String
+                                                             (Ascii.Ascii false true true true false true true false)
+                                                             (String.String
+                                                                (Ascii.Ascii true true true true true false true false)
+                                                                (String.String
+                                                                   (Ascii.Ascii true true false false true true true
+                                                                      false)
+                                                                   (String.String
+                                                                      (Ascii.Ascii false false true false true true
+                                                                         true false)
+                                                                      (String.String
+                                                                         (Ascii.Ascii true false false false false true
+                                                                            true false)
+                                                                         (String.String
+                                                                            (Ascii.Ascii true true false false false
+                                                                               true true false)
+                                                                            (String.String
+                                                                               (Ascii.Ascii true true false true false
+                                                                                  true true false)
+                                                                               (String.String
+                                                                                  (Ascii.Ascii false false false true
+                                                                                     false true false false)
+                                                                                  (String.String
+                                                                                     (Ascii.Ascii false false false
+                                                                                        true false true false false)
+                                                                                     (String.String
+                                                                                        (Ascii.Ascii false false false
+                                                                                          false true true true false)
+                                                                                        (String.String
+                                                                                          (Ascii.Ascii true true true
+                                                                                          true false true true false)
+                                                                                          (String.String
+                                                                                          (Ascii.Ascii true false false
+                                                                                          true false true true false)
+                                                                                          (String.String
+                                                                                          (Ascii.Ascii false true true
+                                                                                          true false true true false)
+                                                                                          (String.String
+                                                                                          (Ascii.Ascii false false true
+                                                                                          false true true true false)
+                                                                                          (String.String
+                                                                                          (Ascii.Ascii true true false
+                                                                                          false true true true false)
+                                                                                          (String.String
+                                                                                          (Ascii.Ascii false false true
+                                                                                          true false true false false)
+                                                                                          (String.String
+                                                                                          (Ascii.Ascii false false
+                                                                                          false false false true false
+                                                                                          false)
+                                                                                          (String.String
+                                                                                          (Ascii.Ascii false true true
+                                                                                          true false true true false)
+                                                                                          (String.String
+                                                                                          (Ascii.Ascii false false
+                                                                                          false false true true true
+                                                                                          false)
+                                                                                          (String.String
+                                                                                          (Ascii.Ascii false true true
+                                                                                          true false true false false)
+                                                                                          (String.String
+                                                                                          (Ascii.Ascii false true false
+                                                                                          true true true true false)
+                                                                                          (String.String
+                                                                                          (Ascii.Ascii true false true
+                                                                                          false false true true false)
+                                                                                          (String.String
+                                                                                          (Ascii.Ascii false true false
+                                                                                          false true true true false)
+                                                                                          (String.String
+                                                                                          (Ascii.Ascii true true true
+                                                                                          true false true true false)
+                                                                                          (String.String
+                                                                                          (Ascii.Ascii true true false
+                                                                                          false true true true false)
+                                                                                          (String.String
+                                                                                          (Ascii.Ascii false false
+                                                                                          false true false true false
+                                                                                          false)
+                                                                                          (String.String
+                                                                                          (Ascii.Ascii false false true
+                                                                                          true false true true false)
+                                                                                          (String.String
+                                                                                          (Ascii.Ascii true false true
+                                                                                          false false true true false)
+                                                                                          (String.String
+                                                                                          (Ascii.Ascii false true true
+                                                                                          true false true true false)
+                                                                                          (String.String
+                                                                                          (Ascii.Ascii false false
+                                                                                          false true false true false
+                                                                                          false)
+                                                                                          (String.String
+                                                                                          (Ascii.Ascii false false
+                                                                                          false false true true true
+                                                                                          false)
+                                                                                          (String.String
+                                                                                          (Ascii.Ascii true true true
+                                                                                          true false true true false)
+                                                                                          (String.String
+                                                                                          (Ascii.Ascii true false false
+                                                                                          true false true true false)
+                                                                                          (String.String
+                                                                                          (Ascii.Ascii false true true
+                                                                                          true false true true false)
+                                                                                          (String.String
+                                                                                          (Ascii.Ascii false false true
+                                                                                          false true true true false)
+                                                                                          (String.String
+                                                                                          (Ascii.Ascii true true false
+                                                                                          false true true true false)
+                                                                                          (String.String
+                                                                                          (Ascii.Ascii true false false
+                                                                                          true false true false false)
+                                                                                          (String.String
+                                                                                          (Ascii.Ascii true false false
+                                                                                          true false true false false)
+                                                                                          (String.String
+                                                                                          (Ascii.Ascii true false false
+                                                                                          true false true false false)
+                                                                                          (String.String
+                                                                                          (Ascii.Ascii true false false
+                                                                                          true false true false false)
+                                                                                          (String.String
+                                                                                          (Ascii.Ascii false false
+                                                                                          false false false true false
+                                                                                          false)
+                                                                                          (String.String
+                                                                                          (Ascii.Ascii true false false
+                                                                                          true false true true false)
+                                                                                          (String.String
+                                                                                          (Ascii.Ascii false true true
+                                                                                          false false true true false)
+                                                                                          (String.String
+                                                                                          (Ascii.Ascii false false
+                                                                                          false false false true false
+                                                                                          false)
+                                                                                          (String.String
+                                                                                          (Ascii.Ascii false true true
+                                                                                          true false true true false)
+                                                                                          (String.String
+                                                                                          (Ascii.Ascii false false true
+                                                                                          false false true true false)
+                                                                                          (String.String
+                                                                                          (Ascii.Ascii true false false
+                                                                                          true false true true false)
+                                                                                          (String.String
+                                                                                          (Ascii.Ascii true false true
+                                                                                          true false true true false)
+                                                                                          (String.String
+                                                                                          (Ascii.Ascii false false
+                                                                                          false false false true false
+                                                                                          false)
+                                                                                          (String.String
+                                                                                          (Ascii.Ascii true false true
+                                                                                          true true true false false)
+                                                                                          (String.String
+                                                                                          (Ascii.Ascii true false true
+                                                                                          true true true false false)
+                                                                                          (String.String
+                                                                                          (Ascii.Ascii false false
+                                                                                          false false false true false
+                                                                                          false)
+                                                                                          (String.String
+                                                                                          (Ascii.Ascii false true false
+                                                                                          false true true false false)
+                                                                                          (String.String
+                                                                                          (Ascii.Ascii false false
+                                                                                          false false false true false
+                                                                                          false)
+                                                                                          (String.String
+                                                                                          (Ascii.Ascii true false true
+                                                                                          false false true true false)
+                                                                                          (String.String
+                                                                                          (Ascii.Ascii false false true
+                                                                                          true false true true false)
+                                                                                          (String.String
+                                                                                          (Ascii.Ascii true true false
+                                                                                          false true true true false)
+                                                                                          (String.String
+                                                                                          (Ascii.Ascii true false true
+                                                                                          false false true true false)
+                                                                                          (String.String
+                                                                                          (Ascii.Ascii false false
+                                                                                          false false false true false
+                                                                                          false)
+                                                                                          (String.String
+                                                                                          (Ascii.Ascii false true true
+                                                                                          true false true true false)
+                                                                                          (String.String
+                                                                                          (Ascii.Ascii false false
+                                                                                          false false true true true
+                                                                                          false)
+                                                                                          (String.String
+                                                                                          (Ascii.Ascii false true true
+                                                                                          true false true false false)
+                                                                                          (String.String
+                                                                                          (Ascii.Ascii true false false
+                                                                                          false false true true false)
+                                                                                          (String.String
+                                                                                          (Ascii.Ascii false true false
+                                                                                          false true true true false)
+                                                                                          (String.String
+                                                                                          (Ascii.Ascii false true false
+                                                                                          false true true true false)
+                                                                                          (String.String
+                                                                                          (Ascii.Ascii true false false
+                                                                                          false false true true false)
+                                                                                          (String.String
+                                                                                          (Ascii.Ascii true false false
+                                                                                          true true true true false)
+                                                                                          (String.String
+                                                                                          (Ascii.Ascii false false
+                                                                                          false true false true false
+                                                                                          false)
+                                                                                          (String.String
+                                                                                          (Ascii.Ascii false false
+                                                                                          false false true true true
+                                                                                          false)
+                                                                                          (String.String
+                                                                                          (Ascii.Ascii true true true
+                                                                                          true false true true false)
+                                                                                          (String.String
+                                                                                          (Ascii.Ascii true false false
+                                                                                          true false true true false)
+                                                                                          (String.String
+                                                                                          (Ascii.Ascii false true true
+                                                                                          true false true true false)
+                                                                                          (String.String
+                                                                                          (Ascii.Ascii false false true
+                                                                                          false true true true false)
+                                                                                          (String.String
+                                                                                          (Ascii.Ascii true true false
+                                                                                          false true true true false)
+                                                                                          (String.String
+                                                                                          (Ascii.Ascii true false false
+                                                                                          true false true false false)
+                                                                                          String.EmptyString)))))))))))))))))))))))))))))))))))))))))))))))))))))))))))))))))))))))))))))))))))))))))));
+        String.String (Ascii.Ascii false false false false true true true false)
+          (String.String (Ascii.Ascii true true true true false true true false)
+             (String.String (Ascii.Ascii true false false true false true true false)
+                (String.String (Ascii.Ascii false true true true false true true false)
+                   (String.String (Ascii.Ascii false false true false true true true false)
+                      (String.String (Ascii.Ascii true true false false true true true false)
+                         (String.String (Ascii.Ascii false false false false false true false false)
+                            (String.String (Ascii.Ascii true false true true true true false false)
+                               (String.String (Ascii.Ascii false false false false false true false false)
+                                  (String.String (Ascii.Ascii false false false false true true true false)
+                                     (String.String (Ascii.Ascii true true true true false true true false)
+                                        (String.String (Ascii.Ascii true false false true false true true false)
+                                           (String.String (Ascii.Ascii false true true true false true true false)
+                                              (String.String (Ascii.Ascii false false true false true true true false)
+                                                 (String.String
+                                                    (Ascii.Ascii true true false false true true true false)
+                                                    (String.String
+                                                       (Ascii.Ascii true true false true true false true false)
+                                                       (String.String
+                                                          (Ascii.Ascii false true false true true true false false)
+                                                          (String.String
+                                                             (Ascii.Ascii false false true true false true false false)
+                                                             (String.String
+                                                                (Ascii.Ascii false false false false false true false
+                                                                   false)
+                                                                (String.String
+                                                                   (Ascii.Ascii true true false true true false true
+                                                                      false)
+                                                                   (String.String
+                                                                      (Ascii.Ascii true false false false true true
+                                                                         false false)
+                                                                      (String.String
+                                                                         (Ascii.Ascii false false true true false true
+                                                                            false false)
+                                                                         (String.String
+                                                                            (Ascii.Ascii false false false false false
+                                                                               true false false)
+                                                                            (String.String
+                                                                               (Ascii.Ascii false true false false true
+                                                                                  true false false)
+                                                                               (String.String
+                                                                                  (Ascii.Ascii false false true true
+                                                                                     false true false false)
+                                                                                  (String.String
+                                                                                     (Ascii.Ascii false false false
+                                                                                        false false true false false)
+                                                                                     (String.String
+                                                                                        (Ascii.Ascii false false false
+                                                                                          false true true false false)
+                                                                                        (String.String
+                                                                                          (Ascii.Ascii true false true
+                                                                                          true true false true false)
+                                                                                          (String.String
+                                                                                          (Ascii.Ascii true false true
+                                                                                          true true false true false)
+                                                                                          String.EmptyString))))))))))))))))))))))))))));
+        String.String (Ascii.Ascii false false false false true true true false)
+          (String.String (Ascii.Ascii true true true true false true true false)
+             (String.String (Ascii.Ascii true false false true false true true false)
+                (String.String (Ascii.Ascii false true true true false true true false)
+                   (String.String (Ascii.Ascii false false true false true true true false)
+                      (String.String (Ascii.Ascii true true false false true true true false)
+                         (String.String (Ascii.Ascii true true false true true false true false)
+                            (String.String (Ascii.Ascii false true false true true true false false)
+                               (String.String (Ascii.Ascii false false true true false true false false)
+                                  (String.String (Ascii.Ascii false false false false false true false false)
+                                     (String.String (Ascii.Ascii false true false false true true false false)
+                                        (String.String (Ascii.Ascii true false true true true false true false)
+                                           (String.String (Ascii.Ascii false false false false false true false false)
+                                              (String.String (Ascii.Ascii false true false true false true false false)
+                                                 (String.String
+                                                    (Ascii.Ascii true false true true true true false false)
+                                                    (String.String
+                                                       (Ascii.Ascii false false false false false true false false)
+                                                       (String.String
+                                                          (Ascii.Ascii true false true true false true false false)
+                                                          (String.String
+                                                             (Ascii.Ascii true false false false true true false false)
+                                                             (String.String
+                                                                (Ascii.Ascii false true true true false true false
+                                                                   false)
+                                                                (String.String
+                                                                   (Ascii.Ascii false false false false true true false
+                                                                      false) String.EmptyString)))))))))))))))))))] /\
+       IoGen.ray_return =
+       String.String (Ascii.Ascii true false true true false true true false)
+         (String.String (Ascii.Ascii true false true false false true true false)
+            (String.String (Ascii.Ascii true true false false true true true false)
+               (String.String (Ascii.Ascii false false false true false true true false)
+                  (String.String (Ascii.Ascii true false false true false true true false)
+                     (String.String (Ascii.Ascii true true true true false true true false)
+                        (String.String (Ascii.Ascii false true true true false true false false)
+                           (String.String (Ascii.Ascii true false true true false false true false)
+                              (String.String (Ascii.Ascii true false true false false true true false)
+                                 (String.String (Ascii.Ascii true true false false true true true false)
+                                    (String.String (Ascii.Ascii false false false true false true true false)
+                                       (String.String (Ascii.Ascii false false false true false true false false)
+                                          (String.String (Ascii.Ascii false false false false true true true false)
+                                             (String.String (Ascii.Ascii true true true true false true true false)
+                                                (String.String
+                                                   (Ascii.Ascii true false false true false true true false)
+                                                   (String.String
+                                                      (Ascii.Ascii false true true true false true true false)
+                                                      (String.String
+                                                         (Ascii.Ascii false false true false true true true false)
+                                                         (String.String
+                                                            (Ascii.Ascii true true false false true true true false)
+                                                            (String.String
+                                                               (Ascii.Ascii false false true true false true false
+                                                                  false)
+                                                               (String.String
+                                                                  (Ascii.Ascii false false false false false true false
+                                                                     false)
+                                                                  (String.String
+                                                                     (Ascii.Ascii true true false false false true true
+                                                                        false)
+                                                                     (String.String
+                                                                        (Ascii.Ascii true false true false false true
+                                                                           true false)
+                                                                        (String.String
+                                                                           (Ascii.Ascii false false true true false
+                                                                              true true false)
+                                                                           (String.String
+                                                                              (Ascii.Ascii false false true true false
+                                                                                 true true false)
+                                                                              (String.String
+                                                                                 (Ascii.Ascii true true false false
+                                                                                    true true true false)
+                                                                                 (String.String
+                                                                                    (Ascii.Ascii true false false true
+                                                                                       false true false false)
+                                                                                    String.EmptyString))))))))))))))))))))))))).
+Proof. exact @IoGenEq.gen_ray_context. Qed.
+
 Print Assumptions C20_point_carries_its_node_2d.
 Print Assumptions C20_cell_carries_its_velocity_2d.
 Print Assumptions C20_point_carries_its_node_3d.
@@ -95,3 +785,17 @@ Print Assumptions C20_cell_corners_distinct_2d.
 Print Assumptions C20_cell_corners_distinct_3d.
 Print Assumptions C20_ray_segments_consecutive.
 Print Assumptions C20_one_polyline_per_ray.
+Print Assumptions C20_node_coordinates_from_source_2d_x.
+Print Assumptions C20_node_coordinates_from_source_3d_z.
+Print Assumptions C20_node_counts_from_source.
+Print Assumptions C20_point_numbering_from_source_2d.
+Print Assumptions C20_cell_numbering_from_source_2d.
+Print Assumptions C20_point_numbering_from_source_3d.
+Print Assumptions C20_cell_numbering_from_source_3d.
+Print Assumptions C20_cells_from_source_2d.
+Print Assumptions C20_cells_from_source_3d.
+Print Assumptions C20_data_order_from_source_2d.
+Print Assumptions C20_data_order_from_source_3d.
+Print Assumptions C20_ray_segments_from_source.
+Print Assumptions C20_ray_offset_accumulates.
+Print Assumptions C20_ray_export_statement_context.
